@@ -21,7 +21,7 @@ RULE = ("case = composable triple a, b, c (0-5 boxes each, width 0-4, empty "
         "tensor, circuit, zx, biclosed, cartesian; all slice points 0<=i<=j<=len "
         "plus negative/None bounds; sums of 0-3 terms.  Non-trivial = a, b, c "
         "have >= 3 boxes in total; distinct by repr of the triple.")
-SIZES = {"quick": (16, 200), "thorough": (16, 6000)}
+SIZES = {"quick": (16, 200), "thorough": (16, 4000)}
 TIMEOUT = {"quick": 600, "thorough": 5400}
 COVER = {
     "discopy.cat:Arrow.then": 0.75,
